@@ -252,6 +252,45 @@ func enumerate(visit func(idx int64, family string, nontrivial bool, mk func() I
 			}
 		}
 	}
+	// --- valid encodings of long members (around the decoder's chunk sizes), both
+	// byte orders, and every prefix length that is a multiple of 997 bytes
+	for _, nv := range []int{255, 256, 257, 300, 1023, 1025, 4097} {
+		for kind := 0; kind < 4; kind++ {
+			for order := 0; order < 2; order++ {
+				nv, kind, little := nv, kind, order == 1
+				mk := func() []byte {
+					pts := make([]geom.Point, nv)
+					for i := range pts {
+						pts[i] = geom.Point{X: float64(i) + 0.25, Y: float64(i*i%977) - 3.5}
+					}
+					var g geom.Geom
+					switch kind {
+					case 0:
+						g = geom.LineString(pts)
+					case 1:
+						g = geom.MultiPoint(pts)
+					case 2:
+						g = geom.Polygon{geom.Path(pts[:3]), geom.Path(pts)}
+					default:
+						g = geom.GeometryCollection{geom.MultiLineString{geom.LineString(pts[:2]), geom.LineString(pts)}, geom.Point{X: 1, Y: 2}}
+					}
+					e, _, err := wkbref.Encode(g, func(int) bool { return little })
+					if err != nil {
+						report.Harness("%v", err)
+					}
+					return e
+				}
+				emit("wkb-valid-long", true, func() Input { return Input{Dec: "wkb", Data: mk()} })
+				if nv <= 1025 {
+					emit("hex-valid-long", true, func() Input { return Input{Dec: "hex", Data: []byte(stdhex.EncodeToString(mk()))} })
+				}
+				for l := 997; l < 9+16*nv; l += 997 {
+					l := l
+					emit("wkb-long-prefix", true, func() Input { b := mk(); return Input{Dec: "wkb", Data: b[:l]} })
+				}
+			}
+		}
+	}
 	// --- synthetic WKB families
 	for l := 0; l <= 2; l++ {
 		n := 1
